@@ -128,6 +128,11 @@ def run(ctx):
                     bad = "the store cannot be configured with these directories: " + str(e).strip().splitlines()[-1][:300]
                     wk.close()
                     wk = pipeline.WorkerProc("real", cwd=cwd1)
+                if bad is None and ci % 2 == 1:
+                    # the working directory changes between set_store and the first use of the store: the directories are those
+                    # that the spellings denoted when set_store was called (they are made absolute there)
+                    wk.call(cmd="cwd", dir=cwd2)
+                    res.count("configurations_with_chdir_before_first_use")
                 wk.call(cmd="world", dir=ws, module="c16w", extmod="c16e")
                 r = wk.call(cmd="run", entry=entry) if bad is None else None
                 if bad is None and (r["error"] is not None or r["value"] != want):
@@ -189,8 +194,8 @@ def run(ctx):
                 ai, ad = os.path.join(root, "again_i"), os.path.join(root, "again_d")
                 wk.call(cmd="store_api", internal_dir=ai, data_dir=ad, cache_objects=cache)
                 r1 = wk.call(cmd="run", entry=entry)
-                shutil.rmtree(ai)
-                shutil.rmtree(ad)
+                shutil.rmtree(ai, ignore_errors=True)
+                shutil.rmtree(ad, ignore_errors=True)
                 wk.call(cmd="store_api", internal_dir=ai, data_dir=ad, cache_objects=cache)
                 r2 = wk.call(cmd="run", entry=entry)
                 res.evaluations += 2
